@@ -1643,12 +1643,12 @@ Lemma loaded_neighbour : forall net, loaded net -> forall n l m,
   (exists v, get_segment net n m = Ok v) /\ good_node net m.
 Proof.
   intros net Hl n l m Hc Hin. destruct (loaded_adj net Hl) as [hp Ha]. destruct (Ha n) as [H0 H1].
-  destruct (links_of n (nw_segs net)) as [|x t] eqn:El.
-  { unfold connected in Hc. rewrite (H0 eq_refl) in Hc. discriminate. }
-  assert (Hne : x :: t <> []) by discriminate. specialize (H1 Hne).
+  assert (Hne : links_of n (nw_segs net) <> []).
+  { intro Hnil. unfold connected in Hc. rewrite (H0 Hnil) in Hc. discriminate. }
+  specialize (H1 Hne).
   unfold connected in Hc. rewrite H1 in Hc. cbn [bind snd] in Hc. inversion Hc. subst l.
   apply in_map_iff in Hin. destruct Hin as [[m' p] [Hm Hin]]. cbn [fst] in Hm. subst m'.
-  rewrite <- El in Hin. apply links_of_In in Hin. destruct Hin as [s [_ Hs]].
+  apply links_of_In in Hin. destruct Hin as [s [_ Hs]].
   split; [exists s; exact Hs|]. split.
   - unfold get_segment. destruct Hs as [Hs | Hs].
     + destruct (In_m_find_some _ _ _ cell_cmp_eq _ _ _ Hs) as [s' Hf]. rewrite Hf. eexists; reflexivity.
@@ -1661,7 +1661,7 @@ Qed.
 (* both directions: a stored segment is found from either end, reversed from
    the far end, with the same cost; each end lists the other as a neighbour;
    the end cells hold the end nodes *)
-Lemma both_directions : forall net a b s, loaded net ->
+Lemma both_directions : forall net (a b : node) s, loaded net ->
   m_find cell_cmp (a, b) (nw_segs net) = Some s ->
   get_segment net a b = Ok (mkview (sg_cells s) s) /\
   (m_find cell_cmp (b, a) (nw_segs net) = None -> get_segment net b a = Ok (mkview (rev (sg_cells s)) s)) /\
@@ -1680,4 +1680,261 @@ Proof.
   - pose proof (m_find_In cell_cmp_eq _ _ _ Hf) as Hin. split; apply (loaded_nodes net Hl); exists a, b, s; (split; [exact Hin|]).
     + left. split; reflexivity.
     + right. split; reflexivity.
+Qed.
+
+(* ------------------------------------------------ snapping ends on a node *)
+
+Lemma nth_cell_0 : forall l c d, nth_cell l 0 = Ok c -> hd d l = c.
+Proof.
+  intros l c d. unfold nth_cell. simpl. destruct l as [|x t]; simpl; [discriminate|].
+  intro H. inversion H. reflexivity.
+Qed.
+
+Lemma nth_error_last : forall (l : list cell) c d,
+  nth_error l (List.length l - 1) = Some c -> l <> [] -> last l d = c.
+Proof.
+  induction l as [|x t IH]; intros c d H Hne; [contradiction|].
+  destruct t as [|y t'].
+  - simpl in H. inversion H. reflexivity.
+  - change (last (x :: y :: t') d) with (last (y :: t') d). apply IH; [|discriminate].
+    simpl in H. simpl. rewrite Nat.sub_0_r. exact H.
+Qed.
+
+Lemma nth_cell_last : forall l c d, nth_cell l (Z.of_nat (List.length l) - 1) = Ok c -> last l d = c.
+Proof.
+  intros l c d. unfold nth_cell. destruct l as [|x t].
+  - simpl. discriminate.
+  - destruct (Z.of_nat (List.length (x :: t)) - 1 <? 0) eqn:E; [discriminate|].
+    replace (Z.to_nat (Z.of_nat (List.length (x :: t)) - 1)) with (List.length (x :: t) - 1)%nat by lia.
+    destruct (nth_error (x :: t) (List.length (x :: t) - 1)) eqn:En; [|discriminate].
+    intro H. inversion H. subst. apply nth_error_last; [exact En | discriminate].
+Qed.
+
+Lemma hd_rev : forall (l : list cell) d, hd d (rev l) = last l d.
+Proof.
+  induction l as [|x t IH]; intro d; [reflexivity|].
+  simpl rev. destruct t as [|y t'].
+  - reflexivity.
+  - change (last (x :: y :: t') d) with (last (y :: t') d). rewrite <- IH.
+    destruct (rev (y :: t')) as [|z r] eqn:E; [|reflexivity].
+    exfalso. apply (f_equal (@List.length cell)) in E. rewrite rev_length in E. discriminate.
+Qed.
+
+Lemma last_rev : forall (l : list cell) d, last (rev l) d = hd d l.
+Proof. intros l d. rewrite <- (rev_involutive l) at 2. rewrite hd_rev. reflexivity. Qed.
+
+Lemma view_ends_hold_nodes : forall net (a b : node) v, loaded net -> get_segment net a b = Ok v ->
+  (forall c, view_front v = Ok c -> In a (nodes_at net c)) /\
+  (forall c, view_back v = Ok c -> In b (nodes_at net c)).
+Proof.
+  intros net a b v Hl Hg. apply get_segment_view_of in Hg. unfold view_front, view_back.
+  destruct Hg as [[Hf Hc] | [_ [Hf Hc]]]; rewrite Hc.
+  - destruct (both_directions net a b (v_seg v) Hl Hf) as [_ [_ [_ [Ha Hb]]]]. split; intros c H.
+    + apply (nth_cell_0 _ _ (0, 0)) in H. subst c. exact Ha.
+    + apply (nth_cell_last _ _ (0, 0)) in H. subst c. exact Hb.
+  - destruct (both_directions net b a (v_seg v) Hl Hf) as [_ [_ [_ [Hb Ha]]]]. split; intros c H.
+    + apply (nth_cell_0 _ _ (0, 0)) in H. rewrite hd_rev in H. subst c. exact Ha.
+    + apply (nth_cell_last _ _ (0, 0)) in H. rewrite last_rev in H. subst c. exact Hb.
+Qed.
+
+Lemma chain_cons2 : forall net n m t v vs,
+  chain net (n :: m :: t) (v :: vs) =
+  (get_segment net n m = Ok v /\ m <> n /\
+   (exists all, connected net n = Ok all /\ In m all) /\ chain net (m :: t) vs).
+Proof. reflexivity. Qed.
+
+Lemma chain_last : forall net pre path last0,
+  chain net path (pre ++ [last0]) ->
+  exists a b, In a path /\ In b path /\ get_segment net a b = Ok last0.
+Proof.
+  intros net pre. induction pre as [|p pre' IH]; intros path last0 H.
+  - change ([] ++ [last0]) with [last0] in H.
+    destruct path as [|n [|m t]]; [destruct H | destruct H |].
+    rewrite chain_cons2 in H.
+    destruct H as [Hg _]. exists n, m. split; [left; reflexivity|]. split; [right; left; reflexivity | exact Hg].
+  - rewrite <- app_comm_cons in H.
+    destruct path as [|n [|m t]]; [destruct H | destruct H |].
+    rewrite chain_cons2 in H.
+    destruct H as [_ [_ [_ Hc]]]. destruct (IH _ _ Hc) as [a [b [Ha [Hb Hg]]]].
+    exists a, b. split; [right; exact Ha|]. split; [right; exact Hb | exact Hg].
+Qed.
+
+Lemma jump_ends_on_node : forall net fuel start d tp r, loaded net ->
+  walk_tr net fuel start d true tp = Ok r -> w_on_segment r = true ->
+  exists n, In n (w_path r) /\ In n (nodes_at net (w_cell r)).
+Proof.
+  intros net fuel start d tp r Hl. unfold walk_tr.
+  destruct (random_node_at net start tp) as [[n0 tp']|e]; [|discriminate].
+  intros Hw Hon. pose proof (walk_loop_accounting _ _ _ _ _ _ _ _ _ Hw) as Ha.
+  destruct (walk_loop_path _ _ _ _ _ _ _ _ _ Hw) as [_ [Hch _]].
+  rewrite Hon in Ha. destruct Ha as [pre [last0 [rem [Hv [_ [_ [_ [_ Hs]]]]]]]].
+  rewrite Hv in Hch. destruct (chain_last _ _ _ _ Hch) as [a [b [Hia [Hib Hg]]]].
+  destruct (view_ends_hold_nodes net a b last0 Hl Hg) as [Hf Hb].
+  unfold stop_cell in Hs. destruct (Qlt_bool rem (v_cost last0 / 2)).
+  - exists a. split; [exact Hia | apply Hf; exact Hs].
+  - exists b. split; [exact Hib | apply Hb; exact Hs].
+Qed.
+
+(* ---------------------- on a loaded network a walk meets no other error *)
+
+Definition walk_error (e : err) : Prop := e = InvalidArgument \/ e = TapeMismatch \/ e = OutOfFuel.
+
+Lemma costs_positive_In : forall net k s, costs_positive net = true -> In (k, s) (nw_segs net) -> (0 < seg_cost s)%Q.
+Proof.
+  intros net k s H Hin. unfold costs_positive in H. rewrite forallb_forall in H.
+  apply Qlt_bool_iff. exact (H (k, s) Hin).
+Qed.
+
+Lemma walk_loop_loaded : forall fuel net start jump nd visited d tp e,
+  loaded net -> costs_positive net = true -> good_node net nd ->
+  walk_loop fuel net start jump nd visited d tp = Err e ->
+  walk_error e /\ (e = InvalidArgument -> (d < 0)%Q).
+Proof.
+  induction fuel as [|f IH]; intros net start jump nd visited d tp e Hl Hpos Hgood.
+  - simpl. intro H. inversion H. split; [right; right; reflexivity | discriminate].
+  - rewrite walk_loop_S.
+    destruct (Qle_bool 0 d) eqn:Ed.
+    2:{ intro H. inversion H. split; [left; reflexivity|]. intros _. apply Qlt_bool_iff. unfold Qlt_bool. rewrite Ed. reflexivity. }
+    apply Qle_bool_iff in Ed.
+    destruct Hgood as [l [Hc Hne]].
+    unfold next_node.
+    destruct (next_node_cands net nd visited) as [cands|e0] eqn:Ec.
+    2:{ unfold next_node_cands in Ec. rewrite Hc in Ec. cbn [bind] in Ec.
+        destruct l as [|a [|b t]]; try discriminate.
+        destruct (filter (fun id => negb (zmem id visited)) (a :: b :: t)); discriminate. }
+    cbn [bind].
+    destruct (next_node_cands_spec _ _ _ _ Ec) as [all [Hc' [Hcne [_ [Hsub _]]]]].
+    rewrite Hc in Hc'. inversion Hc'. subst all. specialize (Hsub Hne).
+    destruct (choose_cases _ (@Err (node * tape) UB_OutOfBounds) cands tp Hcne) as [[nx [tp' [Hch Hin]]] | Hch]; rewrite Hch.
+    2:{ intro H. inversion H. split; [right; left; reflexivity | discriminate]. }
+    destruct (nx =? nd); [discriminate|].
+    destruct (loaded_neighbour net Hl nd l nx Hc (Hsub nx Hin)) as [_ [[v Hg] Hgx]].
+    rewrite Hg. cbn [bind].
+    destruct (Qlt_bool (v_cost v) d) eqn:El.
+    + destruct (walk_loop f net start jump nx (zset_insert nd visited) (Qred (d - v_cost v)) tp') as [r|e1] eqn:Er;
+        cbn [bind]; [discriminate|].
+      intro H. inversion H. subst e1.
+      destruct (IH _ _ _ _ _ _ _ _ Hl Hpos Hgx Er) as [H1 H2]. split; [exact H1|].
+      intro He. specialize (H2 He). exfalso.
+      apply Qlt_bool_iff in El. pose proof (Qred_correct (d - v_cost v)) as Hred. lra.
+    + apply Qlt_bool_false in El.
+      pose proof (get_segment_view_of _ _ _ _ Hg) as Hv.
+      assert (Hin' : exists k, In (k, v_seg v) (nw_segs net) /\
+                     List.length (v_cells v) = List.length (sg_cells (v_seg v))).
+      { destruct Hv as [[Hf Hcl] | [_ [Hf Hcl]]]; eexists; (split; [apply (m_find_In cell_cmp_eq); exact Hf|]); rewrite Hcl;
+          [reflexivity | apply rev_length]. }
+      destruct Hin' as [k [Hk Hlen]].
+      destruct (loaded_tables net Hl) as [_ [_ Hwf]].
+      destruct (stop_cell_defined v d jump (Hwf _ _ Hk) Hlen (costs_positive_In _ _ _ Hpos Hk) Ed El) as [c Hs].
+      rewrite Hs. cbn [bind]. discriminate.
+Qed.
+
+Lemma walk_loaded_errors : forall net fuel start d jump tp e,
+  loaded net -> costs_positive net = true ->
+  walk net fuel start d jump tp = Err e ->
+  (e = InvalidArgument /\ (nodes_at net start = [] \/ (d < 0)%Q)) \/ e = TapeMismatch \/ e = OutOfFuel.
+Proof.
+  intros net fuel start d jump tp e Hl Hpos. unfold walk, walk_tr, random_node_at.
+  destruct (nodes_at net start) as [|n l] eqn:En.
+  - simpl. intro H. inversion H. left. split; [reflexivity | left; reflexivity].
+  - destruct (choose_cases _ (@Err (node * tape) InvalidArgument) (n :: l) tp) as [[n0 [tp' [Hc Hin]]] | Hc];
+      [discriminate | | rewrite Hc; simpl; intro H; inversion H; right; left; reflexivity].
+    rewrite Hc.
+    destruct (walk_loop fuel net start jump n0 [] d tp') as [r|e1] eqn:Ew; cbn [bind]; [discriminate|].
+    intro H. inversion H. subst e1.
+    assert (Hg : good_node net n0) by (apply (loaded_node_good net Hl start); rewrite En; exact Hin).
+    destruct (walk_loop_loaded _ _ _ _ _ _ _ _ _ Hl Hpos Hg Ew) as [[H1 | [H1 | H1]] H2].
+    + left. split; [exact H1 | right; exact (H2 H1)].
+    + right. left. exact H1.
+    + right. right. exact H1.
+Qed.
+
+(* --------------------------- teleport on a loaded network: edge probabilities *)
+
+Lemma nth_error_map_pair : forall (l : list (node * Q)) i m p,
+  nth_error (map fst l) i = Some m -> nth_error (map snd l) i = Some p -> nth_error l i = Some (m, p).
+Proof.
+  induction l as [|[m0 p0] t IH]; intros i m p H1 H2; destruct i; simpl in *; try discriminate.
+  - inversion H1. inversion H2. reflexivity.
+  - apply IH; assumption.
+Qed.
+
+Lemma teleport_loaded : forall net start tp m c, loaded net ->
+  teleport_tr net start 1 tp = Ok (m, c) ->
+  exists n0, In n0 (nodes_at net start) /\
+    (exists s, In ((n0, m), s) (nw_segs net) \/ In ((m, n0), s) (nw_segs net)) /\
+    (forall ps a b t, adj_at net n0 = Ok (ps, a :: b :: t) -> ps <> [] ->
+       exists s, (0 < sg_prob s)%Q /\ (In ((n0, m), s) (nw_segs net) \/ In ((m, n0), s) (nw_segs net))) /\
+    (exists ns, In (c, ns) (nw_nodes net) /\ In m ns).
+Proof.
+  intros net start tp m c Hl H. apply teleport_adjacent in H.
+  destruct H as [n0 [ps [ms [Hn0 [Ha [Hm [Hp Hc]]]]]]].
+  exists n0. split; [exact Hn0|].
+  destruct (loaded_node_good net Hl start n0 Hn0) as [l [Hcon Hne]].
+  assert (Hl' : l = ms) by (unfold connected in Hcon; rewrite Ha in Hcon; inversion Hcon; reflexivity). subst l.
+  assert (Hin : In m ms) by (destruct Hm as [[Hnil _] | Hm]; [contradiction | exact Hm]).
+  destruct (loaded_neighbour net Hl n0 ms m Hcon Hin) as [Hs _].
+  split; [exact Hs|]. split; [|exact Hc].
+  intros ps' a b t Ha' Hps. rewrite Ha in Ha'. inversion Ha'. subst ps' ms.
+  destruct (Hp a b t eq_refl Hps) as [i [p [Hi [Hpos Hmi]]]].
+  destruct (loaded_adj net Hl) as [hp Hadj]. destruct (Hadj n0) as [H0 H1].
+  assert (Hne' : links_of n0 (nw_segs net) <> []).
+  { intro Hnil. rewrite (H0 Hnil) in Ha. discriminate. }
+  rewrite (H1 Hne') in Ha. injection Ha as Hps' Hms'.
+  destruct hp; [|exfalso; apply Hps; symmetry; exact Hps'].
+  rewrite <- Hps' in Hi. rewrite <- Hms' in Hmi.
+  pose proof (nth_error_map_pair _ _ _ _ Hmi Hi) as Hpair. apply nth_error_In in Hpair.
+  apply links_of_In in Hpair. destruct Hpair as [s [Hsp Hs']].
+  exists s. split; [rewrite Hsp; exact Hpos | exact Hs'].
+Qed.
+
+(* ------------------------------- a node pair given by more than one record *)
+
+Lemma m_find_nodup : forall (l : list ((node * node) * segment)) k s,
+  NoDup (map fst l) -> In (k, s) l -> m_find cell_cmp k l = Some s.
+Proof.
+  induction l as [|[k0 s0] t IH]; intros k s Hnd Hin; [destruct Hin|].
+  cbn [map fst] in Hnd. inversion Hnd as [|x xs Hnot Hnd']. subst.
+  cbn [m_find]. destruct Hin as [Hin | Hin].
+  - inversion Hin. subst. rewrite (proj2 (cell_cmp_eq k k) eq_refl). reflexivity.
+  - destruct (cell_cmp k k0) eqn:E.
+    + apply cell_cmp_eq in E. subst k0. exfalso. apply Hnot. apply in_map_iff. exists (k, s). split; [reflexivity | exact Hin].
+    + apply IH; assumption.
+    + apply IH; assumption.
+Qed.
+
+(* when no node pair is repeated among the kept records, every kept record is
+   in the network *)
+Lemma load_keeps_all_when_distinct : forall g fl lines ae net hc hp consumed outs,
+  load g fl lines ae = Ok net ->
+  stream_has_columns fl = Ok (hc, hp, consumed) ->
+  sequence (map (record_segment g hc hp) (if consumed then tl lines else lines)) = Ok outs ->
+  NoDup (map fst (kept outs)) ->
+  forall k s, In (k, s) (kept outs) <-> m_find cell_cmp k (nw_segs net) = Some s.
+Proof.
+  intros g fl lines ae net hc hp consumed outs Hload Hh Hs Hnd k s.
+  apply load_spec in Hload. destruct Hload as [hc' [hp' [consumed' [outs' [Hh' [Hs' [_ [Hsegs _]]]]]]]].
+  rewrite Hh in Hh'. inversion Hh'. subst hc' hp' consumed'. rewrite Hs in Hs'. inversion Hs'. subst outs'.
+  rewrite Hsegs, emplace_all_find. cbn [m_find]. split.
+  - apply m_find_nodup. exact Hnd.
+  - apply (m_find_In cell_cmp_eq).
+Qed.
+
+(* witness: the same node pair twice, both records with their end nodes
+   inside; the second record's geometry is not in the loaded network *)
+Definition dup_lines : list rawrec :=
+  [ mkraw (Ok 1) (Ok 2) (Err InvalidArgument) (Err InvalidArgument) [Ok (1 # 2, 19 # 2)%Q; Ok (9 # 2, 19 # 2)%Q];
+    mkraw (Ok 1) (Ok 2) (Err InvalidArgument) (Err InvalidArgument)
+          [Ok (1 # 2, 19 # 2)%Q; Ok (1 # 2, 15 # 2)%Q; Ok (9 # 2, 15 # 2)%Q; Ok (9 # 2, 19 # 2)%Q] ].
+
+Lemma parallel_edge_dropped : exists g lines net k s,
+  load g [] lines false = Ok net /\
+  (exists r, In r lines /\ record_segment g false false r = Ok (Some (k, s))) /\
+  ~ In (k, s) (nw_segs net).
+Proof.
+  exists zero_cost_grid, dup_lines.
+  eexists. exists (1, 2). eexists.
+  split; [vm_compute; reflexivity|]. split.
+  - eexists. split; [right; left; reflexivity | vm_compute; reflexivity].
+  - vm_compute. intros [H | []]. inversion H.
 Qed.
